@@ -292,4 +292,36 @@ def NamesOkKids : List Node → Bool
   | _ :: rest => NamesOkKids rest
 end
 
+/-! ### trees the tokenizer law (TB-XML) speaks about -/
+
+def isXmlNameStart (c : Char) : Bool := c.isAlpha || c = '_'
+def isXmlNameChar (c : Char) : Bool := c.isAlpha || c.isDigit || c = '_' || c = '-' || c = '.'
+
+/-- a (conservative, ASCII, colon-free) XML name -/
+def xmlNameOk : Str → Bool
+  | [] => false
+  | c :: r => isXmlNameStart c && r.all isXmlNameChar
+
+/-- character data / attribute values that come back from the tokenizer unchanged: XML
+    characters only, and no '\r' (which the tokenizer rewrites to '\n') -/
+def xmlCharsOk (s : Str) : Bool := s.all (fun c => xmlCharOk c.toNat && c != '\r')
+
+mutual
+/-- canonical, well-named trees: empty name spaces, XML names, round-trippable characters,
+    no empty text node, only elements and text -/
+def wellNamedNode : Node → Bool
+  | .elem sp name attrs kids =>
+      sp.isEmpty && xmlNameOk name
+      && attrs.all (fun a => a.space.isEmpty && xmlNameOk a.name && xmlCharsOk a.value)
+      && wellNamedKids kids
+  | .text s => !s.isEmpty && xmlCharsOk s
+  | _ => false
+def wellNamedKids : List Node → Bool
+  | [] => true
+  | k :: ks => wellNamedNode k && wellNamedKids ks
+end
+
+/-- … and no two adjacent text nodes (the tokenizer would hand them over as one) -/
+def WellNamed (n : Node) : Bool := wellNamedNode n && noAdjText n
+
 end Mxj
